@@ -392,6 +392,16 @@ fn gen_plan(rng: &mut Rng, cfg: &Cfg) -> Vec<Op> {
             }
         }
     }
+    // StableGraph sources: make node / edge vacancies common (several holes, not only one),
+    // including a vacancy at index 0 and trailing vacancies
+    if cfg.stable && n > 2 && rng.chance(2, 3) {
+        for _ in 0..rng.range(1, 3) {
+            v.push(Op::RemoveNode(match rng.below(4) { 0 => 0, 1 => n - 1, _ => rng.below(n) }));
+        }
+        if m > 1 && rng.chance(1, 2) {
+            v.push(Op::RemoveEdge(rng.below(m)));
+        }
+    }
     // ---- faults: most runs 0..2
     let nf = match rng.below(10) {
         0..=2 => 0,
